@@ -63,7 +63,7 @@ def check(ctx):
     o = ctx.ob('unlink_and_reroot', 'R4',
                "a re-parented task is unlinked from its RAW old parent (the WBS root task included) and parent = None on a member re-roots it "
                "under the WBS root task", floor=4)
-    ctx.guarded(o, lambda o: c01.mirror_parent(ctx, o))
+    ctx.guarded(o, lambda o: __import__('rules.c05', fromlist=['mirror_shared']).mirror_shared(ctx, o))
 
     o = ctx.ob('shared_child_list', 'R1',
                "one child list object per task, shared with every children facade: facades change it in place and publish that very object, "
@@ -121,6 +121,17 @@ def check(ctx):
                "list while it still reports the WBS)", floor=1)
     ctx.guarded(o, lambda o: move_anchor(ctx, o, eff))
 
+    o = ctx.ob('id_precheck_complete', 'R8',
+               "the id test the children setter runs up front (shared rule C05.intersection_test) rejects everything the per-child parent "
+               "assignment would reject later - also two different incoming tasks with one id: otherwise the assignment fails after the old "
+               "children were released and the kept ones are left outside X.tasks while they report X", floor=5)
+    ctx.guarded(o, lambda o: __import__('rules.c05', fromlist=['intersection']).intersection(ctx, o))
+
+    o = ctx.ob('owners_compared_by_identity', 'R2',
+               "the same-WBS guards compare owners with `!=` / `==`: WBS must not define __eq__ / __ne__, or a member of another but "
+               "equal-looking WBS passes them (shared rule with C05)", floor=1)
+    ctx.guarded(o, lambda o: __import__('rules.c05', fromlist=['owner_identity']).owner_identity(ctx, o))
+
     o = ctx.ob('removal_paths_delegate', 'R8',
                "list removal, remove_all, WBS.remove / remove_all and roots assignment all end in a children assignment on the owning task", floor=4)
     ctx.guarded(o, lambda o: removal_paths(ctx, o))
@@ -148,7 +159,18 @@ def writers(ctx, o, eff):
         if wk is not None:
             o.site(e, e.node, f"{nm} stores the owner" + ("" if wk is e else f" through {wk.name}"))
     init = prog.func('wbs.WBS.__init__')
-    if any(match("self._WBS__root._attach(self)", n) for n in ast.walk(init.node)):
+    iex = Expander(prog, init, ctx.typer, inline=False)
+    root_vals = [v for _, _, v in facts.attr_stores(init, '_WBS__root') if v is not None]
+
+    def attaches_root(n):
+        m = match("$r._attach(self)", n)
+        if m is None:
+            return False
+        r = m['r']
+        # the root task itself, or the local it was built in before being published (`root = Task(..); self.__root = root`)
+        return bool(match("self._WBS__root", r)) or any(same(r, v) or (isinstance(r, ast.Name) and same(iex.expand(r), iex.expand(v)))
+                                                        for v in root_vals)
+    if any(isinstance(n, ast.Call) and attaches_root(n) for n in ast.walk(init.node)):
         o.site(init, init.node, "root task attached to the new WBS")
     else:
         o.refute(init, init.node, 'root attach', "WBS.__init__ does not attach its root task to itself: members would report no owner")
@@ -189,6 +211,8 @@ def recursion(ctx, o):
         f, via_call, via_f = _owner_worker(prog, entry, eff)
         if f is None:
             r = _flat_owner_loop(ctx, o, entry, name, val_ok)
+            if r is None:
+                r = _worklist_owner_loop(ctx, o, entry, name, val_ok)
             if r is None:
                 if any(True for _ in facts.attr_stores(entry, '_Task__wbs')) or _unresolved_calls(ctx, _closure(ctx, entry)):
                     o.undecided(entry, entry.node, name, f"{name} stores the owner in a form the rule does not follow")
@@ -330,6 +354,60 @@ def _flat_owner_loop(ctx, o, f, name, val_ok):
             o.refute(f, st, st, "_detach clears the owner only when " + ', '.join(facts.cond_texts(conds)))
             return True
     o.site(f, st, f"{name}: the owner is stored on the task and on every descendant (flat loop over the subtree)")
+    return True
+
+
+def _worklist_owner_loop(ctx, o, f, name, val_ok):
+    """`pending = [self]; while pending: t = pending.pop(); t.__wbs = <owner>; pending.extend(<children of t>)`: the explicit-stack
+    spelling of _attach / _detach.  True when recognised (verdict recorded), None otherwise"""
+    from .c05_util import worklist_shape
+    prog = ctx.prog
+    s = f.self_name
+    whiles = [n for n in walk_no_nested(f.node) if isinstance(n, ast.While)]
+    stores = [x for x in facts.attr_stores(f, '_Task__wbs')]
+    if len(whiles) != 1 or len(stores) != 1 or not isinstance(stores[0][1].value, ast.Name):
+        return None
+    wl = whiles[0]
+    sh = worklist_shape(f, s, wl)
+    st, tgt, val = stores[0]
+    if sh is None or tgt.value.id != sh['cur'] or not any(x is st for b in wl.body for x in ast.walk(b)):
+        return None
+    cfg = cfg_of(f)
+    if sh['starts'] != 'self':
+        if sh['starts'] == 'children':
+            o.refute(f, wl, wl, f"{name} walks the descendants but not the task itself: its own owner is never updated")
+            return True
+        return None
+    if sh['push'] == 'none':
+        o.refute(f, wl, wl, f"{name} never pushes the children of the tasks it visits: grandchildren and below keep the old owner")
+        return True
+    if sh['push'] == 'conditional':
+        o.refute(f, sh['push_stmt'], sh['push_stmt'], f"{name} descends into the children only under a condition: part of the subtree keeps the old owner")
+        return True
+    if sh['push'] != 'all':
+        return None
+    if cfg.conditions(cfg.node_of(st)) != sh['base']:
+        extra = [c for c in cfg.conditions(cfg.node_of(st)) if c not in sh['base']]
+        o.refute(f, st, st, f"{name} updates the owner of a visited task only when " + ', '.join(facts.cond_texts(extra))[:100])
+        return True
+    wp = [x for x in f.params if x != s]
+    conds = [facts.norm_cond(t, q) for t, q in facts.node_conditions(prog, f, wl, ctx.typer, expand=False)]
+    if val_ok == 'param':
+        if not (isinstance(val, ast.Name) and wp and val.id == wp[0]):
+            o.refute(f, st, st, f"_attach stores `{src(val)}` instead of its argument")
+            return True
+        bad = [(t, q) for t, q in conds if not (match(f"{wp[0]} is None", t) and not q)]
+        if bad:
+            o.refute(f, st, st, "_attach skips the owner update when " + ', '.join(facts.cond_texts(bad)))
+            return True
+    else:
+        if not (isinstance(val, ast.Constant) and val.value is None):
+            o.refute(f, st, st, "_detach does not clear the owner")
+            return True
+        if conds:
+            o.refute(f, st, st, "_detach clears the owner only when " + ', '.join(facts.cond_texts(conds)))
+            return True
+    o.site(f, st, f"{name}: the owner is stored on the task and on every descendant (explicit work list)")
     return True
 
 
@@ -789,6 +867,40 @@ def live_enumeration(ctx, o):
             o.refute(g, w.node, w.node, f"WBS.tasks keeps state on the WBS ({unmangle(w.field)}): a remembered flat list goes stale")
 
 
+def _partition(v):
+    """`<part1> + <part2>` where each part is (a sorted / copied) `[t for t in self._list if c]`:
+    ('perm', c1, c2) when c2 is the negation of c1, ('mismatch', ..) when one is the truth value of E and the other `E is (not) None`
+    (they disagree on 0, '', False), ('unknown', ..) otherwise; None when v is not of that form"""
+    if not (isinstance(v, ast.BinOp) and isinstance(v.op, ast.Add)):
+        return None
+
+    def part(e):
+        while isinstance(e, ast.Call) and isinstance(e.func, ast.Name) and e.func.id in ('sorted', 'list', 'reversed') and e.args:
+            e = e.args[0]
+        if isinstance(e, (ast.ListComp, ast.GeneratorExp)) and len(e.generators) == 1 and isinstance(e.generators[0].target, ast.Name) and \
+                isinstance(e.elt, ast.Name) and e.elt.id == e.generators[0].target.id and len(e.generators[0].ifs) == 1 and \
+                _perm_of_list(e.generators[0].iter) == 'perm':
+            return e.generators[0].target.id, e.generators[0].ifs[0]
+        m = match("filter($f, $x)", e)
+        return None
+    a, b = part(v.left), part(v.right)
+    if a is None or b is None:
+        return None
+    from sa.flow import subst
+    c1 = a[1]
+    c2 = subst(b[1], {b[0]: ast.Name(id=a[0], ctx=ast.Load())})
+    n1, q1 = facts.norm_cond(c1, True)
+    n2, q2 = facts.norm_cond(c2, True)
+    if same(n1, n2):
+        return ('perm' if q1 != q2 else 'mismatch', c1, c2)
+    # truth value of E  vs  E is None
+    for (x, qx), (y, qy) in (((n1, q1), (n2, q2)), ((n2, q2), (n1, q1))):
+        my = match("$e is None", y)
+        if my is not None and same(my['e'], x):
+            return ('mismatch', c1, c2)
+    return ('unknown', c1, c2)
+
+
 def _perm_of_list(v):
     """'perm' when v is recognisably a permutation / copy of the facade's whole list, ('subset', node) when it keeps only some
     of its elements, None otherwise"""
@@ -838,6 +950,21 @@ def list_ops(ctx, o):
                     k = 'perm'
                 elif any(x is not None and x != 'perm' for x in ks):
                     k = next(x for x in ks if x is not None and x != 'perm')
+            if k is None:
+                pt = _partition(vx)
+                if pt is not None:
+                    kind, c1, c2 = pt
+                    if kind == 'perm':
+                        k = 'perm'
+                    elif kind == 'mismatch':
+                        o.refute(m, st, st, f"{m.name} rebuilds the shared list from two filtered parts of it whose tests are not complements "
+                                            f"(`{src(c1)[:40]}` / `{src(c2)[:40]}`): a task with a false but not-None value is in neither part and "
+                                            f"drops out of the children list (and of X.tasks) without being detached")
+                        continue
+                    else:
+                        o.undecided(m, st, st, f"{m.name} rebuilds the shared list from two filtered parts (`{src(c1)[:40]}` / `{src(c2)[:40]}`); "
+                                               f"cannot tell that every task is in exactly one of them")
+                        continue
             if k is None:
                 tp = _transfer_perm(m, value, ex, fl)
                 if tp == 'perm':
